@@ -284,7 +284,8 @@ pub fn run_c15(cfg: &Config) -> i32 {
 
 	// random values: deep shuffles (must be equal) and single mutations (oracle decides)
 	let n = cfg.budget(1_000_000, 20_000_000);
-	let shards = 64usize;
+	// every shard runs at least one case of each family: fewer shards under the interpreter
+	let shards = if cfg!(miri) { 6usize } else { 64usize };
 	let rep = parallel(cfg.threads, shards, |i| {
 		let mut rep = Report::new();
 		let mut rng = Rng::new(seed).fork(0xc15 + i as u64);
@@ -403,7 +404,7 @@ pub fn run_c15(cfg: &Config) -> i32 {
 	// operands that went through object operations (sort applied 0-3 times at every level, rebuilds,
 	// removals and re-insertions) against freshly built permutations of the same content
 	let n = cfg.budget(200_000, 4_000_000);
-	let rep = parallel(cfg.threads, 64, |i| {
+	let rep = parallel(cfg.threads, if cfg!(miri) { 6 } else { 64 }, |i| {
 		fn churn(rng: &mut Rng, v: &mut Value) {
 			match v {
 				Value::Array(a) => {
@@ -688,7 +689,8 @@ pub fn run_c14(cfg: &Config) -> i32 {
 	let thorough = cfg.tier == Tier::Thorough;
 	let mut total = Report::new();
 	let seed = cfg.seed;
-	let shards = 64usize;
+	// every shard runs at least one case of each family: fewer shards under the interpreter
+	let shards = if cfg!(miri) { 6usize } else { 64usize };
 
 	// (a) generated pairs: a value and near-copies
 	let n = cfg.budget(1_500_000, 30_000_000);
